@@ -11,8 +11,8 @@ VARIANTS = [
          old="            float_v = float(v)\n        except (ValueError, TypeError, OverflowError):\n            return f\"The value {repr(v)} could not be cast to float\"\n\n        if math.isnan(float_v):",
          new="            float(v)\n        except (ValueError, TypeError):\n            return f\"The value {repr(v)} could not be cast to float\"\n\n        if math.isnan(v):"),
     dict(id="c02-no-finally", prop="C02", file=TELL, expect="R02.1",
-         old="    try:\n        # Sampler defined trial post-processing.\n        study = pruners._filter_study(study, frozen_trial)\n        study.sampler.after_trial(study, frozen_trial, state, values)\n    finally:\n        study._storage.set_trial_state_values(frozen_trial._trial_id, state, values)\n",
-         new="    # Sampler defined trial post-processing.\n    study = pruners._filter_study(study, frozen_trial)\n    study.sampler.after_trial(study, frozen_trial, state, values)\n    study._storage.set_trial_state_values(frozen_trial._trial_id, state, values)\n"),
+         old="    try:\n        # Sampler defined trial post-processing.\n        study = pruners._filter_study(study, frozen_trial)\n        # The sampler gets its own list: the one below is what has been validated and is stored.\n        study.sampler.after_trial(\n            study, frozen_trial, state, None if values is None else list(values)\n        )\n    finally:\n        study._storage.set_trial_state_values(frozen_trial._trial_id, state, values)\n",
+         new="    # Sampler defined trial post-processing.\n    study = pruners._filter_study(study, frozen_trial)\n    study.sampler.after_trial(study, frozen_trial, state, None if values is None else list(values))\n    study._storage.set_trial_state_values(frozen_trial._trial_id, state, values)\n"),
     dict(id="c02-narrow-except", prop="C02", file=OP, expect="R02.1",
          old="        except (Exception, KeyboardInterrupt) as e:\n            state = TrialState.FAIL", new="        except Exception as e:\n            state = TrialState.FAIL"),
     dict(id="c02-len-on-scalar-before-normalise", prop="C02", file=TELL, expect="R02.1",
@@ -104,4 +104,13 @@ VARIANTS += [
          old="        callbacks = list(callbacks)\n", new="        callbacks = iter(callbacks)\n"),
     dict(id="c02-neutral-callbacks-tuple", prop="C02", file="optuna/study/_optimize.py", expect=None,
          old="        callbacks = list(callbacks)\n", new="        callbacks = tuple(callbacks)\n"),
+]
+
+VARIANTS += [
+    dict(id="c02-after-trial-shares-values-list", prop="C02", file="optuna/study/_tell.py", expect="R02.3",
+         old="        study.sampler.after_trial(\n            study, frozen_trial, state, None if values is None else list(values)\n        )\n",
+         new="        study.sampler.after_trial(study, frozen_trial, state, values)\n"),
+    dict(id="c02-pool-shutdown-without-wait", prop="C02", file="optuna/study/_optimize.py", expect="R02.5",
+         old="                        for f in completed:\n                            f.result()\n",
+         new="                        for f in completed:\n                            f.result()\n                        executor.shutdown(wait=False)\n"),
 ]
